@@ -372,6 +372,27 @@ def gap_loops(prog, F):
     return out
 
 
+def _capped_bound(F, loop):
+    """text of the bound if the loop runs to min(<constant>, msa->numseq) - a fixed-size prefix of the sequences"""
+    c = loop.child("cond")
+    if c is None:
+        return None
+    c = c.strip(casts=True)
+    if c.k != "BinaryOperator" or c.d["op"] not in ("<", "<="):
+        return None
+    b = c.kids[1].strip(casts=True)
+    if b.k == "DeclRefExpr" and b.d.get("dk") == "Var":
+        defs = [d for d, _ in local_defs(F, b.d["did"]) if d is not None]
+        if len(defs) != 1:
+            return None
+        b = defs[0].strip(casts=True)
+    if b.k == "ConditionalOperator":
+        parts = [b.child("then").strip(casts=True), b.child("else").strip(casts=True)]
+        if any(p_.cv is not None for p_ in parts) and any("numseq" in p_.text() for p_ in parts):
+            return "min(%s)" % ", ".join(p_.text() for p_ in parts)
+    return None
+
+
 def r04b(ck, prog):
     n = 0
     # (1) span of every loop over gaps
@@ -415,22 +436,43 @@ def r04b(ck, prog):
             where = site(prog, a, "aligned=UNALIGNED")
             ck.inst("R04b", where, "%s assigns ALN_STATUS_UNALIGNED" % F.name, prog.config)
             if F.name == "dealign_msa":
-                zero = [s for s in F.body.find("BinaryOperator") if s.d["op"] == "=" and "gaps" in s.kids[0].text()
-                        and const_value(s.kids[1]) == 0]
+                from ..util import expand_aliases
+                from ..affine import loop_range as _lr, single_defs as _sd
+                loop_range, subst = _lr, _sd(F)
                 ok = False
-                for z in zero:
-                    loops = [x for x in z.ancestors() if x.k == "ForStmt"]
-                    if len(loops) >= 2:
-                        inner, outer = induction_bound(loops[0]), induction_bound(loops[1])
-                        if inner and outer and inner[1] == "<=" and "len" in inner[2].text() and \
-                                outer[1] == "<" and "numseq" in outer[2].text() and \
-                                not [c for c, p_ in guards(z, stop=loops[1]) if c.parent.k not in ("ForStmt", "WhileStmt")]:
-                            pa, pl = F.cfg.position(a), F.cfg.position(loops[1].child("cond"))
-                            if F.cfg.dominates(pl, pa) and not a.within(loops[1]):
-                                ok = True
-                recognised = any(len([x for x in z.ancestors() if x.k == "ForStmt"]) >= 2 and
-                                 induction_bound([x for x in z.ancestors() if x.k == "ForStmt"][0]) and
-                                 induction_bound([x for x in z.ancestors() if x.k == "ForStmt"][1]) for z in zero)
+                recognised = False
+                for z in F.body.find("BinaryOperator"):
+                    if z.d["op"] != "=" or const_value(z.kids[1]) != 0 or z.kids[0].strip().k != "ArraySubscriptExpr":
+                        continue
+                    base = expand_aliases(F, z.kids[0].strip().kids[0])
+                    if not base.endswith("->gaps"):
+                        continue
+                    owner = base[:-len("->gaps")]
+                    loops = [x for x in z.ancestors() if x.k in ("ForStmt", "WhileStmt")]
+                    if len(loops) < 2:
+                        continue
+                    ri, ro = loop_range(loops[0], subst), loop_range(loops[1], subst)
+                    if ri is None or ro is None:
+                        continue
+                    recognised = True
+                    idx = z.kids[0].strip().kids[1].strip(casts=True).text()
+                    def same_len(t):
+                        """is the text t (an atom of the bound) the len of the record whose gaps are zeroed?"""
+                        if t == owner + "->len":
+                            return True
+                        for m in F.body.find("MemberExpr"):
+                            if m.d.get("field") == "len" and m.text() == t and expand_aliases(F, m) == owner + "->len":
+                                return True
+                        return False
+                    inner_full = idx == ri[0] and ri[1].is_const() and ri[1].c == 0 and ri[2].c == 1 and len(ri[2].t) == 1 and \
+                        list(ri[2].t.values()) == [1] and same_len(list(ri[2].t)[0])
+                    outer_full = ro[1].is_const() and ro[1].c == 0 and ro[2].c == 0 and list(ro[2].t.items()) == [("msa->numseq", 1)] and \
+                        ("sequences[%s]" % ro[0]) in owner
+                    unguarded = not [c for c, p_ in guards(z, stop=loops[1]) if c.parent.k not in ("ForStmt", "WhileStmt")]
+                    if inner_full and outer_full and unguarded:
+                        pa, pl = F.cfg.position(a), F.cfg.position(loops[1].child("cond"))
+                        if F.cfg.dominates(pl, pa) and not a.within(loops[1]):
+                            ok = True
                 if not ok and not recognised:
                     raise AnalysisBroken("R04b: the loop nest of dealign_msa that zeroes the gap counts is not in a recognised counting form")
                 if not ok:
@@ -450,19 +492,39 @@ def r04b(ck, prog):
                                  "ALN_STATUS_UNALIGNED is not assigned on the 'no gap symbol seen' branch", prog.config)
                     continue
                 subst = single_defs(F)
+                from ..affine import loop_range as _lr2
                 ok = False
-                for loop, var, op, bound, hits in gap_loops(prog, F):
-                    outer = [x for x in loop.ancestors() if x.k == "ForStmt"]
-                    ob = induction_bound(outer[0]) if outer else None
-                    lb = lin(ob[2], subst) if ob else None
-                    covers_all = ob is not None and ob[1] == "<" and lb is not None and \
-                        list(lb.t) == ["msa->numseq"] and lb.c == 0 and lb.t["msa->numseq"] == 1
-                    covers_slots = op == "<=" and bound.strip(casts=True).k == "MemberExpr" and \
-                        bound.strip(casts=True).d.get("field") == "len"
-                    ck.inst("R04b", site(prog, loop, "gap total"), "detect_aligned totals gaps over i %s %s, j %s %s" % (
-                        ob[1] if ob else "?", ob[2].text() if ob else "?", op, bound.text()), prog.config)
+                undecided = None
+                seen_total = False
+                for acc in list(F.body.find("CompoundAssignOperator")):
+                    if acc.d["op"] != "+=" or not any(m_.d.get("field") == "gaps" and m_.d.get("rec") == "msa_seq" for m_ in acc.kids[1].find("MemberExpr")):
+                        continue
+                    loops = [x for x in acc.ancestors() if x.k in ("ForStmt", "WhileStmt")]
+                    if len(loops) < 2:
+                        continue
+                    seen_total = True
+                    ri, ro = _lr2(loops[0], subst), _lr2(loops[1], subst)
+                    ck.inst("R04b", site(prog, loops[0], "gap total"), "detect_aligned totals gaps over sequences %s, slots %s" % (
+                        "[%s, %s)" % (ro[1], ro[2]) if ro else "?", "[%s, %s)" % (ri[1], ri[2]) if ri else "?"), prog.config)
+                    if _capped_bound(F, loops[1]):
+                        ck.violation("R04b", "R04b/detect_aligned/coverage", where,
+                                     "the gap total that decides 'unaligned' runs over the first %s sequences only: gaps in the "
+                                     "others survive because kalign_run skips dealign_msa" % _capped_bound(F, loops[1]), prog.config)
+                        ok = True           # reported; do not add the generic message
+                        continue
+                    if ri is None or ro is None:
+                        undecided = "a loop of the gap total in detect_aligned is not a recognised counting loop"
+                        continue
+                    covers_all = ro[1].is_const() and ro[1].c == 0 and ro[2].c == 0 and list(ro[2].t.items()) == [("msa->numseq", 1)]
+                    covers_slots = ri[1].is_const() and ri[1].c == 0 and ri[2].c == 1 and len(ri[2].t) == 1 and \
+                        list(ri[2].t.values()) == [1] and list(ri[2].t)[0].endswith("->len")
                     if covers_all and covers_slots:
                         ok = True
+                    elif not (ro[1].is_const() and set(ro[2].t) <= {"msa->numseq"} and ri[1].is_const() and
+                              all(k_.endswith("->len") for k_ in ri[2].t)):
+                        undecided = "the range of the gap total in detect_aligned is not comparable with all sequences x all slots"
+                if not ok and (undecided or not seen_total):
+                    raise AnalysisBroken("R04b: %s" % (undecided or "the gap total of detect_aligned was not found"))
                 if not ok:
                     ck.violation("R04b", "R04b/detect_aligned/coverage", where,
                                  "the gap total that decides 'unaligned' does not cover every slot 0..len of every one of the "
